@@ -475,9 +475,10 @@ class Prop:
                 dim = rng.randrange(N); dims = [dim]; dk = "int"
             else:
                 dims = rng.sample(range(N), rng.randint(1, N)); dim = dims; dk = "list"
-            b = None if rng.random() < 0.5 else [rb() for _ in dims]
+            r = rng.random()
+            b = None if r < 0.4 else ([rb() for _ in dims] if r < 0.8 else rb())     # one pair stands for every mode
             mk("gradient", [t], [dims], dim=dim, bounds=b,
-               tagx={"dimkind": dk, "boundskind": "none" if b is None else "list"})
+               tagx={"dimkind": dk, "boundskind": "none" if b is None else ("list" if isinstance(b[0], list) else "pair")})
         # 6. divergence, curl, laplacian
         def bounds_of(N):
             r = rng.random()
@@ -586,7 +587,7 @@ class Prop:
             outs = [y, y]
         elif op == "gradient":
             dims = list(range(N)) if case["dim"] == "all" else (case["dim"] if isinstance(case["dim"], list) else [case["dim"]])
-            bl = [None] * len(dims) if case["bounds"] is None else case["bounds"]
+            bl = [None] * len(dims) if case["bounds"] is None else per_mode_bounds(case["bounds"], len(dims))
             outs = [spec_partial(xs[0], d, 1, b, False) for d, b in zip(dims, bl)]
         elif op == "divergence":
             bl = per_mode_bounds(case["bounds"], N)
